@@ -67,7 +67,7 @@ TokAt(i) == IF i < NTok THEN Toks[i + 1] ELSE ""     \* token after cursor i, ""
 Cp(c, ns, ic) == [cur |-> c, nsec |-> ns, insp |-> ic]
 Frame(g, mode, ctx, env, path, role, n, c, ns, ic) ==
   [g |-> g, mode |-> mode, ctx |-> ctx, env |-> env, path |-> path, role |-> role,
-   pc |-> 0, n |-> n, acc |-> <<>>, cp |-> Cp(c, ns, ic), cp2 |-> Cp(c, ns, ic), salt |-> NoAlt]
+   pc |-> 0, n |-> n, k |-> 0, acc |-> <<>>, cp |-> Cp(c, ns, ic), cp2 |-> Cp(c, ns, ic), salt |-> NoAlt]
 NoFrame == Frame(<<"empty">>, "E", VU, <<>>, <<>>, "go", 0, 0, 0, 0)
 
 (* the result register; `fr` remembers the frame that returned (for the refinement invariants) *)
@@ -851,6 +851,125 @@ AWithStateRet ==
   /\ Resuming({"withstate"}, 1)
   /\ Return([ret EXCEPT !.fr = NoFrame], cur, sec, Top.n, alt)
 
+
+---------------------------------------------------------------------------
+(* Pratt parsing (src/pratt.rs, Pratt::pratt_go).  g = <<"pratt", atom, ops, table>>, ops a     *)
+(* sequence of <<fix, bp, sym>> with fix in {"prefix", "postfix", "infixl", "infixr"}; every   *)
+(* operator parser is just(sym).  One frame per pratt_go invocation: n = min_power,            *)
+(* cp = pre_expr, cp2 = pre_op, acc = <<lhs>>, k = index of the operator being tried.          *)
+(*   pc 10 prefix scan   1 prefix operand   2 atom   20 postfix scan   21 infix scan           *)
+(*   3 infix operand                                                                           *)
+(* Operators are tried in declaration order; an operator whose own parser or operand fails     *)
+(* rewinds (to pre_expr resp. pre_op) and the next one is tried.                               *)
+
+PLeftPow(op) == IF op[1] = "infixr" THEN 2 * op[2] + 1 ELSE 2 * op[2]        \* Associativity::left_power
+PRightPow(op) == IF op[1] = "infixr" THEN 2 * op[2] ELSE 2 * op[2] + 1       \* Associativity::right_power
+POps(f) == f.g[3]
+(* the fold callbacks also see the span of the sub-expression built so far (C07) *)
+PFold(f, v, endc) == LET sp == SpanOf(f.cp.cur, endc) IN VW(v, sp[1], sp[2], f.ctx, insp)
+(* just(sym) failing at the cursor: add_alt([sym], found, span) *)
+OpMiss(a, sym) ==
+  LET t == TokAt(cur)
+      sp == SpanOf(cur, IF t = "" THEN cur ELSE cur + 1)
+  IN AddAlt(Ety, a, cur, {"t:" \o sym}, t, sp[1], sp[2])
+
+PrattEntering == /\ ~st.done /\ stack # <<>> /\ ~ret.set /\ Op(Top.g) = "pratt"
+PrattCall(f2, minp, ncur, ninsp, nalt) ==      \* the operand: a recursive pratt_go on the same node
+  /\ CallX(f2, f2.g, f2.mode, f2.ctx, f2.env, f2.path, "pratt", minp, ncur, sec, ninsp, nalt)
+  /\ UNCHANGED <<cid, memo, kf, obs, result>>
+PrattStay(f2, nalt) ==                          \* bookkeeping step inside the frame
+  /\ stack' = [stack EXCEPT ![Len(stack)] = f2]
+  /\ alt' = nalt /\ ret' = NoRet /\ Tick
+  /\ UNCHANGED <<cid, cur, sec, insp, memo, kf, obs, result>>
+
+APrattStart ==
+  /\ PrattEntering /\ Top.pc = 0
+  /\ PrattStay([Top EXCEPT !.pc = 10, !.k = 1], alt)
+
+APrattPrefixScan ==
+  /\ PrattEntering /\ Top.pc = 10
+  /\ LET f == Top
+         k == f.k
+     IN IF k > Len(POps(f))
+        THEN Call([f EXCEPT !.pc = 2], 1, f.g[2], f.mode, cur, sec, insp, alt)               \* no prefix operator: the atom
+        ELSE LET op == POps(f)[k] IN
+             IF op[1] # "prefix" THEN PrattStay([f EXCEPT !.k = k + 1], alt)
+             ELSE IF TokAt(cur) = op[3]
+                  THEN PrattCall([f EXCEPT !.pc = 1], 2 * op[2], cur + 1, insp + 1, alt)
+                  ELSE PrattStay([f EXCEPT !.k = k + 1], OpMiss(alt, op[3]))
+
+APrattPrefixRet ==
+  /\ ~st.done /\ stack # <<>> /\ ret.set /\ Op(Top.g) = "pratt" /\ Top.pc = 1
+  /\ LET f == Top
+         op == POps(f)[f.k]
+     IN IF ret.ok
+        THEN /\ stack' = [stack EXCEPT ![Len(stack)] =
+                            [f EXCEPT !.pc = 20, !.k = 1, !.cp2 = Cp(cur, Len(sec), insp),
+                                      !.acc = <<MV(f.mode, PFold(f, VF("pre", VS(<<op[3]>>), ret.val), cur))>>]]
+             /\ ret' = NoRet /\ Tick
+             /\ UNCHANGED <<cid, cur, alt, sec, insp, memo, kf, obs, result>>
+        ELSE \* the operand failed: rewind(pre_expr) and try the next operator
+             /\ stack' = [stack EXCEPT ![Len(stack)] = [f EXCEPT !.pc = 10, !.k = f.k + 1]]
+             /\ cur' = f.cp.cur /\ sec' = RwSec(f.cp) /\ insp' = f.cp.insp
+             /\ ret' = NoRet /\ Tick
+             /\ UNCHANGED <<cid, alt, memo, kf, obs, result>>
+
+APrattAtomRet ==
+  /\ ~st.done /\ stack # <<>> /\ ret.set /\ Op(Top.g) = "pratt" /\ Top.pc = 2
+  /\ LET f == Top IN
+     IF ~ret.ok THEN Keep(ErrRet)
+     ELSE /\ stack' = [stack EXCEPT ![Len(stack)] =
+                         [f EXCEPT !.pc = 20, !.k = 1, !.cp2 = Cp(cur, Len(sec), insp), !.acc = <<ret.val>>]]
+          /\ ret' = NoRet /\ Tick
+          /\ UNCHANGED <<cid, cur, alt, sec, insp, memo, kf, obs, result>>
+
+APrattPostfixScan ==
+  /\ PrattEntering /\ Top.pc = 20
+  /\ LET f == Top
+         k == f.k
+     IN IF k > Len(POps(f)) THEN PrattStay([f EXCEPT !.pc = 21, !.k = 1], alt)
+        ELSE LET op == POps(f)[k] IN
+             IF op[1] # "postfix" \/ 2 * op[2] + 1 < f.n THEN PrattStay([f EXCEPT !.k = k + 1], alt)
+             ELSE IF TokAt(cur) = op[3]
+                  THEN \* consumed: fold and go round the loop (a new pre_op)
+                       /\ stack' = [stack EXCEPT ![Len(stack)] =
+                                      [f EXCEPT !.k = 1, !.cp2 = Cp(cur + 1, Len(sec), insp + 1),
+                                                !.acc = <<MV(f.mode, LET sp == SpanOf(f.cp.cur, cur + 1) IN
+                                                                      VW(VF("post", f.acc[1], VS(<<op[3]>>)), sp[1], sp[2], f.ctx, insp + 1))>>]]
+                       /\ cur' = cur + 1 /\ insp' = insp + 1
+                       /\ ret' = NoRet /\ Tick
+                       /\ UNCHANGED <<cid, alt, sec, memo, kf, obs, result>>
+                  ELSE PrattStay([f EXCEPT !.k = k + 1], OpMiss(alt, op[3]))
+
+APrattInfixScan ==
+  /\ PrattEntering /\ Top.pc = 21
+  /\ LET f == Top
+         k == f.k
+     IN IF k > Len(POps(f))
+        THEN \* nothing applies: rewind(pre_op) and return lhs
+             Return(OkRet(f.acc[1]), f.cp2.cur, RwSec(f.cp2), f.cp2.insp, alt)
+        ELSE LET op == POps(f)[k] IN
+             IF op[1] \notin {"infixl", "infixr"} \/ PLeftPow(op) < f.n THEN PrattStay([f EXCEPT !.k = k + 1], alt)
+             ELSE IF TokAt(cur) = op[3]
+                  THEN PrattCall([f EXCEPT !.pc = 3], PRightPow(op), cur + 1, insp + 1, alt)
+                  ELSE PrattStay([f EXCEPT !.k = k + 1], OpMiss(alt, op[3]))
+
+APrattInfixRet ==
+  /\ ~st.done /\ stack # <<>> /\ ret.set /\ Op(Top.g) = "pratt" /\ Top.pc = 3
+  /\ LET f == Top
+         op == POps(f)[f.k]
+     IN IF ret.ok
+        THEN /\ stack' = [stack EXCEPT ![Len(stack)] =
+                            [f EXCEPT !.pc = 20, !.k = 1, !.cp2 = Cp(cur, Len(sec), insp),
+                                      !.acc = <<MV(f.mode, PFold(f, VF("in", VP(f.acc[1], VS(<<op[3]>>)), ret.val), cur))>>]]
+             /\ ret' = NoRet /\ Tick
+             /\ UNCHANGED <<cid, cur, alt, sec, insp, memo, kf, obs, result>>
+        ELSE \* no right operand: rewind(pre_op), the operator stays unconsumed; try the next one
+             /\ stack' = [stack EXCEPT ![Len(stack)] = [f EXCEPT !.pc = 21, !.k = f.k + 1]]
+             /\ cur' = f.cp2.cur /\ sec' = RwSec(f.cp2) /\ insp' = f.cp2.insp
+             /\ ret' = NoRet /\ Tick
+             /\ UNCHANGED <<cid, alt, memo, kf, obs, result>>
+
 ---------------------------------------------------------------------------
 (* Top level: Parser::parse / Parser::check (src/lib.rs:356-427)           *)
 
@@ -896,5 +1015,6 @@ CoreNext ==
   \/ ALabelStart \/ ALabelRet \/ AMapErrRet
   \/ AMemoStart \/ AMemoRet \/ ARecStart \/ ARefStart \/ APassRet
   \/ AWithCtxStart \/ AThenCtxStart \/ AThenCtxARet \/ AThenCtxBRet \/ AWithStateStart \/ AWithStateRet
+  \/ APrattStart \/ APrattPrefixScan \/ APrattPrefixRet \/ APrattAtomRet \/ APrattPostfixScan \/ APrattInfixScan \/ APrattInfixRet
   \/ Finish
 =============================================================================
